@@ -107,8 +107,10 @@ Lemma AddAccepted_world n b s id :
     Ok (mk_eworld n b (with_pos s (e_pos s) (e_raisedq s) (e_acceptedq s ++ [id])), tt).
 Proof. reflexivity. Qed.
 
-Lemma AccAddress_split a : ent_AccAddressFromBech32 a = if a =? BAD_ADDR then Err ERR_ENT else Ok a.
-Proof. reflexivity. Qed.
+Lemma AccAddress_split a : ent_AccAddressFromBech32 a = if negb (addr_parses a) then Err ERR_ENT else Ok a.
+Proof. unfold ent_AccAddressFromBech32. destruct (addr_parses a); reflexivity. Qed.
+Lemma addr_parses_true a : a <> BAD_ADDR /\ a <> EMPTY_ADDR -> addr_parses a = true.
+Proof. unfold addr_parses. lia. Qed.
 
 (* every stored order sits under its own id (SetPurchaseOrder files an order under po.Id, the model under the id it
    looked up) *)
@@ -232,7 +234,7 @@ Proof.
   unfold complete_one. intros H.
   destruct (aget id (e_pos s)) as [o|] eqn:G; [|discriminate].
   destruct (negb (po_status o =? ST_ACCEPTED)); [discriminate|]. cbv zeta in H.
-  destruct (po_purchaser o =? BAD_ADDR); [discriminate|].
+  destruct (negb (addr_parses (po_purchaser o))); [discriminate|].
   destruct (mint_and_lock _ _ _ _) as [[b2 s2]| |] eqn:M; try discriminate.
   injection H as <- <-. apply mint_and_lock_frame in M. destruct M as [Mp Mpos]. cbn [with_pos e_params e_pos] in Mp, Mpos.
   fold (set_po s id (set_po_status o ST_COMPLETED 0 false)) in Mpos.
